@@ -132,21 +132,6 @@ Fixpoint hvalid (seg : list N) (flag : bool) (h : list hop) : Prop :=
   | HFlag b :: h' => hvalid seg b h'
   end.
 
-(* all the text of a history *)
-Fixpoint htext (h : list hop) : list N :=
-  match h with
-  | [] => []
-  | HText rs :: h' => rs ++ htext h'
-  | _ :: h' => htext h'
-  end.
-
-(* no CR is immediately followed by LF *)
-Fixpoint no_crlf (rs : list N) : bool :=
-  match rs with
-  | [] => true
-  | r :: rest => negb ((r =? 13) && head_is_lf rest) && no_crlf rest
-  end.
-
 (* ------------------------------------------------------------------------------------------------ *)
 (* Statements                                                                                        *)
 (* ------------------------------------------------------------------------------------------------ *)
@@ -168,32 +153,24 @@ Definition stmt_C11_cache_sorted : Prop :=
 Definition stmt_C11_cache_hit : Prop :=
   forall t s i p s', position_at t s i = Some (p, s') -> position_at t s' i = Some (p, s').
 
-(* The full property: after ANY history, every answer is [spec_pos] of the text seen so far. *)
-Definition stmt_C11_full : Prop :=
+(* (c) The property: after ANY history -- any texts (CR LF pairs included, wherever appends, queries, drains
+   and resets split them), any mix of line endings, tabs, wide and zero-width characters, any query order,
+   any placement of drains and resets and should_reset_on_parse toggles, any tab settings with alignment
+   >= 1 -- every answer is [spec_pos] of all the text seen so far. *)
+Definition stmt_C11_history_independent : Prop :=
   forall t, decompress_table = Some t ->
   forall tw ta h, 1 <= ta -> hvalid [] true h ->
     exists s ans, run t (init_state tw ta) (lower [] true h) = Some (s, ans) /\
                   map Some ans = expected t tw ta [] [] true h.
 
-(* (c) what holds of it: the same, for every text in which no CR is immediately followed by LF
-   (in particular every text without CR).  Everything else is unrestricted: any other mix of line
-   endings (lone CR included), tabs, wide and zero-width characters, any query order, any placement
-   of drains and resets, any split of the text over segments, any tab settings with alignment >= 1. *)
-Definition stmt_C11_history_independent_partial : Prop :=
-  forall t, decompress_table = Some t ->
-  forall tw ta h, 1 <= ta -> hvalid [] true h -> no_crlf (htext h) = true ->
-    exists s ans, run t (init_state tw ta) (lower [] true h) = Some (s, ans) /\
-                  map Some ans = expected t tw ta [] [] true h.
-
-(* (d) the genuine defects.  First: no history is needed to get a wrong answer. *)
+(* (d) two readable special cases.  First: no history is needed to get the right answer. *)
 Definition stmt_C11_single_query : Prop :=
   forall t, decompress_table = Some t ->
   forall tw ta rs j, 1 <= ta -> scalars rs -> (j <= length rs)%nat ->
     exists s ans, run t (init_state tw ta) [OText (encs rs); OQuery (boff rs j)] = Some (s, ans) /\
                   map Some ans = [spec_pos t tw ta (mkpos 1 1) (encs rs) (boff rs j)].
-Definition stmt_C11_crlf_column_refuted : Prop := ~ stmt_C11_single_query.
 
-(* Second: the answer to a query depends on which queries were made before. *)
+(* Second: the answer to a query does not depend on which queries were made before. *)
 Definition queries (rs : list N) (js : list nat) : list op := map (fun j => OQuery (boff rs j)) js.
 Definition stmt_C11_query_order_independent : Prop :=
   forall t, decompress_table = Some t ->
@@ -203,6 +180,17 @@ Definition stmt_C11_query_order_independent : Prop :=
       run t (init_state tw ta) (OText (encs rs) :: queries rs js1 ++ [OQuery (boff rs j)]) = Some (s1, a1) ->
       run t (init_state tw ta) (OText (encs rs) :: queries rs js2 ++ [OQuery (boff rs j)]) = Some (s2, a2) ->
       last a1 (mkpos 0 0) = last a2 (mkpos 0 0).
-Definition stmt_C11_crlf_history_refuted : Prop := ~ stmt_C11_query_order_independent.
 
-Definition stmt_C11_full_refuted : Prop := ~ stmt_C11_full.
+(* (e) the hypotheses are satisfiable by histories that split CR LF pairs every way: the text
+   "a CR LF b CR LF c" with a query and a drain between the first CR and its LF, then queries (in
+   descending and ascending order) between the second CR and its LF, after it, and after the first pair.
+   The answers the property demands are spelled out. *)
+Definition example_history : list hop :=
+  [HText [97; 13]; HQuery 2; HDrain; HText [10; 98; 13; 10; 99]; HQuery 4; HQuery 3; HQuery 5; HQuery 1].
+Definition stmt_C11_example : Prop :=
+  hvalid [] true example_history /\
+  forall t, decompress_table = Some t ->
+    expected t 8 8 [] [] true example_history =
+      map Some [mkpos 2 1; mkpos 3 1; mkpos 3 1; mkpos 3 2; mkpos 2 1] /\
+    exists s, run t (init_state 8 8) (lower [] true example_history) =
+      Some (s, [mkpos 2 1; mkpos 3 1; mkpos 3 1; mkpos 3 2; mkpos 2 1]).
